@@ -19,6 +19,7 @@ type simpleMidPool struct {
 	mtx       sync.Mutex
 	min       int32
 	max       int32
+	started   bool
 	intervals []interval
 }
 
@@ -32,13 +33,14 @@ func newMIDPool(min, max int32) midPool {
 func (m *simpleMidPool) Get() int32 {
 	m.mtx.Lock()
 	defer m.mtx.Unlock()
-	if len(m.intervals) == 0 {
+	if !m.started {
+		m.started = true
 		m.intervals = []interval{
 			{from: m.min, to: m.max},
 		}
 		return m.min
 	}
-	if m.intervals[0].from == m.max {
+	if len(m.intervals) == 0 {
 		return -1
 	}
 	m.intervals[0].from++
@@ -54,15 +56,20 @@ func (m *simpleMidPool) Put(mid int32) {
 	}
 	m.mtx.Lock()
 	defer m.mtx.Unlock()
+	if !m.started {
+		return
+	}
 
 	idx := sort.Search(len(m.intervals), func(i int) bool {
 		return m.intervals[i].from >= mid
 	})
-	if idx < len(m.intervals) && (m.intervals[idx].from < mid && m.intervals[idx].to >= mid) {
+	if idx > 0 && (m.intervals[idx-1].from < mid && m.intervals[idx-1].to >= mid) {
 		return
 	}
 
-	if idx == len(m.intervals) {
+	if idx == 0 && len(m.intervals) == 0 {
+		m.intervals = append(m.intervals, interval{from: mid - 1, to: mid})
+	} else if idx == len(m.intervals) {
 		if m.intervals[idx-1].from < mid && m.intervals[idx-1].to >= mid {
 			return
 		}
